@@ -154,7 +154,62 @@ def _anc13(n):
         p = parent(p)
 
 
+def rule_group_run_closed(ctx: Ctx) -> None:
+    """group.run-closed: group_one_qubit_gates collects a run of one-qubit gates in a list while it walks a wire backwards and writes the
+    run back as one wrapper at the bottom of the loop body.  A `continue` skips that step, so at every `continue` the list must be
+    provably empty: flushed just before (`if <list>: insert_at(wrapper(<list>...)); <list> = []`) or reset unconditionally after an
+    insertion.  Otherwise the gates collected so far are written back at the wrong place, or never."""
+    repo = ctx.repo
+    m = repo.module(DAG)
+    fn = repo.anchor(DAG, "CircuitDAG.group_one_qubit_gates")
+    ctx.touch(m, fn)
+    wr = [c for c in calls_in(fn) if (call_name(c) or "").split(".")[-1] == "OneQubitGateWrapper" and c.args and isinstance(c.args[0], ast.Name)]
+    if not wr:
+        raise AnalysisError("group_one_qubit_gates: OneQubitGateWrapper(<gate list>, ...) construction not found")
+    L = wr[0].args[0].id
+    loops = [w for w in ast.walk(fn) if isinstance(w, (ast.While, ast.For)) and any(x in list(ast.walk(w)) for x in wr)]
+    if not loops:
+        raise AnalysisError("group_one_qubit_gates: the loop that writes the wrapper back was not found")
+    inner = min(loops, key=lambda w: len(list(ast.walk(w))))
+    conts = [c for c in ast.walk(inner) if isinstance(c, ast.Continue)]
+    n = 0
+    for c in conts:
+        blk = parent(c)
+        body = None
+        for name in ("body", "orelse"):
+            if any(c is s_ for s_ in getattr(blk, name, [])):
+                body = getattr(blk, name)
+        if body is None:
+            raise AnalysisError("group_one_qubit_gates: position of a `continue` not recognised")
+        before = body[:body.index(c)]
+        empty = False
+        for st in before:
+            # unconditional reset after an insertion, or a guarded flush
+            if isinstance(st, ast.Assign) and norm(st.targets[0]) == L and isinstance(st.value, ast.List) and not st.value.elts:
+                empty = True
+            elif isinstance(st, ast.If) and any(isinstance(x, ast.Name) and x.id == L for x in ast.walk(st.test)) and not st.orelse:
+                flushed = any(call_attr(x) in ("insert_at", "add") for x in calls_in(st))
+                reset = any(isinstance(a, ast.Assign) and norm(a.targets[0]) == L and isinstance(a.value, ast.List) and not a.value.elts for a in st.body)
+                if flushed and reset:
+                    empty = True
+            elif any(isinstance(x, ast.Call) and call_attr(x) in ("append", "extend") and norm(x.func.value) == L for x in ast.walk(st)) or \
+                    (isinstance(st, ast.AugAssign) and norm(st.target) == L):
+                empty = False
+        n += 1
+        if empty:
+            ctx.ok("group.run-closed", m, c, what=f"`{L}` flushed before this continue")
+        else:
+            # is the list provably empty for another reason: the continue is the first thing after the run was written (not supported)
+            ctx.fail("group.run-closed", m, c,
+                     f"group_one_qubit_gates reaches `continue` (line {c.lineno}) with the collected run `{L}` possibly non-empty and skips the step that writes "
+                     f"the run back as a wrapper: the gates collected so far are re-inserted in front of a later operation of the wire, or lost at the "
+                     f"register's input", func="CircuitDAG.group_one_qubit_gates", construct="group_one_qubit_gates: continue with an open run")
+    if n == 0:
+        ctx.ok("group.run-closed", m, inner, what="no continue in the grouping loop")
+
+
 def run(ctx: Ctx) -> None:
+    rule_group_run_closed(ctx)
     from ..rules import placement as _placement
     _placement.rule_noise_placement(ctx)
     rule_unwrap_source(ctx)
@@ -349,6 +404,7 @@ def rule_unwrap_source(ctx: Ctx) -> None:
 
 
 KNOCKOUTS = [
+    Knockout("grouping-skips-identity-with-open-run", DAG, sub_once("                    else:\n                        gate_list.append(op.__class__)\n                        noise_list.append(op.noise)\n                    self.remove_op(node)", "                    elif isinstance(op, ops.Identity) and isinstance(op.noise, NoNoise):\n                        self.remove_op(node)\n                        continue\n                    else:\n                        gate_list.append(op.__class__)\n                        noise_list.append(op.noise)\n                    self.remove_op(node)"), "group.run-closed", "open run"),
     Knockout("unwrap-not-reversed", "graphiq/circuit/ops.py", sub_once("        return gates[::-1]\n\n    def openqasm_info(self):", "        return gates\n\n    def openqasm_info(self):"), "unwrap.order", "reversed"),
     Knockout("unwrap-after-noise-appended", "graphiq/circuit/ops.py", sub_once("                gates.insert(0, noise)\n            else:\n                gates.append(noise)", "                gates.append(noise)\n            else:\n                gates.insert(0, noise)"), "unwrap.order", "After gate"),
     Knockout("remove-identity-ignores-noise", "graphiq/circuit/circuit_dag.py", sub_once('                if isinstance(self.dag.nodes[node]["op"].noise, NoNoise):\n                    self.remove_op(node)\n', '                self.remove_op(node)\n'), "effect.noise-preserved", "remove_identity"),
